@@ -388,6 +388,46 @@ func (w *fpWalker) write(lhs ast.Expr, how string) {
 	}
 }
 
+// escape: a function that returns a package-level variable by reference (the pointer held in it, or its address) whose pointee
+// has exported fields hands every caller a writable alias of library state: what the caller takes for its own value is
+// shared with every other caller.  Recorded as an unguarded store to the variable in that function.
+func (w *fpWalker) escape(e ast.Expr) {
+	e = fpStripParen(e)
+	addr := false
+	if u, ok := e.(*ast.UnaryExpr); ok && u.Op == token.AND {
+		addr = true
+		e = fpStripParen(u.X)
+	}
+	v := w.globalVar(e)
+	if v == nil {
+		return
+	}
+	t := v.Type()
+	if !addr {
+		pt, ok := t.Underlying().(*types.Pointer)
+		if !ok {
+			return
+		}
+		t = pt.Elem()
+	}
+	st, ok := t.Underlying().(*types.Struct)
+	if !ok {
+		return
+	}
+	exported := false
+	for i := 0; i < st.NumFields(); i++ {
+		if st.Field(i).Exported() {
+			exported = true
+		}
+	}
+	if !exported {
+		return
+	}
+	guard, gid := w.ctxGuard(e.Pos())
+	a, b := fpGname(v)
+	w.add(e.Pos(), "LGlobal", a, b, "W", guard, gid, "returned by reference (writable alias handed to the caller) "+types.ExprString(e))
+}
+
 func (w *fpWalker) stmts(list []ast.Stmt) {
 	for _, s := range list {
 		w.stmt(s)
@@ -583,6 +623,7 @@ func (w *fpWalker) stmt(s ast.Stmt) {
 	case *ast.ReturnStmt:
 		for _, r := range x.Results {
 			w.expr(r)
+			w.escape(r)
 		}
 	case *ast.DeferStmt:
 		w.expr(x.Call)
